@@ -145,6 +145,7 @@ WHAT = {
     91: 'generated selection is not inside the source WBS',
     92: 'model walk ran out of fuel',
     93: 'clone(): members differ from WBS.tasks',
+    94: 'a hidden WBS root of the generated state does not carry the reserved id (hypothesis hid_ids of C10_wf)',
 }
 CLAUSE = {1: 'raised', 3: 'new-wbs', 4: 'bijection', 5: 'fields-owner', 6: 'hierarchy', 7: 'internal-links', 8: 'outside-links',
           9: 'source-changed', 10: 'wbs-attributes', 11: 'not-well-formed'}
